@@ -44,6 +44,9 @@ def check(run, prog):
     r2_init(ck, prog, run)
     r3_who_may_write(ck, prog, run)
     r4_signature(ck, prog, run)
+    # the class contract also holds for signals that were the target of an in-place / out= operation (Dask re-points out= arrays, dtype included)
+    from .c17 import dask_out_rule
+    dask_out_rule(ck, prog, "R3")
     run.extra["decided_by"] = ck.how
 
 
@@ -223,6 +226,19 @@ def r2_init(ck, prog, run):
 
 
 # ---------------------------------------------------------------------------------------- R3
+def _revalidated(rhs, target):
+    """rhs is `type(T).like(T, ...).data` or `type(T)(...).data` with T the expression whose _data is being stored."""
+    if not (isinstance(rhs, ast.Attribute) and rhs.attr == "data" and isinstance(rhs.value, ast.Call)):
+        return False
+    c = rhs.value
+    fn = c.func
+    if isinstance(fn, ast.Attribute) and fn.attr == "like":
+        if not (c.args and norm(c.args[0]) == norm(target)):
+            return False
+        fn = fn.value
+    return isinstance(fn, ast.Call) and isinstance(fn.func, ast.Name) and fn.func.id == "type" and len(fn.args) == 1 and norm(fn.args[0]) == norm(target)
+
+
 def r3_who_may_write(ck, prog, run):
     sig_classes = prog.signal_classes()
     props = {v for v in PRIVATE.values() if v}
@@ -249,8 +265,13 @@ def r3_who_may_write(ck, prog, run):
                         own = PRIVATE[t2.attr]
                         ok = in_sigclass and isinstance(t2.value, ast.Name) and t2.value.id == selfname and (
                             (f.kind == "setter" and f.name == own) or (t2.attr == "_data" and f.qualname == "Signal.__init__"))
-                        ck.same("R3", f.where, norm(node), f"the private field {t2.attr} is stored only by its own setter (data: only by Signal.__init__)",
-                                ok, found=f"stored in {f.qualname}", nontrivial=True)
+                        how = f"stored in {f.qualname}"
+                        if not ok and t2.attr == "_data" and in_sigclass and isinstance(node, ast.Assign) and _revalidated(node.value, t2.value):
+                            # b._data = type(b).like(b, x).data / type(b)(x, ...).data : the array has just been through the class's
+                            # own constructor (dimension, shape and dtype checks, safe cast), built for this very object
+                            ok, how = True, how + " from the data of an object freshly built by the target's own class"
+                        ck.same("R3", f.where, norm(node), f"the private field {t2.attr} is stored only by its own setter (data: only by Signal.__init__, or "
+                                "re-validated through the constructor of the object's own class)", ok, found=how, nontrivial=True)
                     elif t2.attr in props and f.module != "pulsarbat.readers._base" and f.module != "pulsarbat.readers._baseband_readers":
                         n_sites += 1
                         ok = in_sigclass and f.name == "__init__" and isinstance(t2.value, ast.Name) and t2.value.id == selfname
